@@ -263,8 +263,8 @@ func TestVerif_C18_UnwrapOnce(t *testing.T) {
 			}
 			tc.rec.Gate = nil
 			trace = sched.Trace
-			if len(trace) > 100 {
-				trace = trace[:100]
+			if len(trace) > 400 {
+				trace = trace[:400]
 			}
 		}
 		// redeem rewrapped tokens: the single right moved along the chain
@@ -328,7 +328,15 @@ func TestVerif_C18_UnwrapOnce(t *testing.T) {
 			}
 		}
 		if consumed {
-			deadline := time.Now().Add(10 * time.Second)
+			wait := 10 * time.Second
+			if mode > 5 {
+				for _, tk := range tasks {
+					if tk.kind == "revoke" && tk.res.ok() {
+						wait = 3 * time.Second // candidate for known finding F8 (never completes): do not wait long
+					}
+				}
+			}
+			deadline := time.Now().Add(wait)
 			for {
 				lr := tc.req(logical.UpdateOperation, "sys/wrapping/lookup", e.other, map[string]any{"token": wi.Token})
 				ar := tc.req(logical.UpdateOperation, "auth/token/lookup-accessor", tc.root, map[string]any{"accessor": wi.Accessor})
@@ -346,7 +354,30 @@ func TestVerif_C18_UnwrapOnce(t *testing.T) {
 						rec.Class("inconclusive-expiry-wait", 1)
 						break
 					}
-					rec.Violation(rt, "wrapping-token-remains", d, "after the payload was redeemed/revoked the wrapping token still exists (lookup ok=%v, accessor ok=%v, stored payload key %q)", lr.ok() && lr.resp != nil, ar.ok() && ar.resp != nil, remaining)
+					var all []string
+					for _, o := range tc.rec.OpsSince(seq0) {
+						if len(all) < 400 {
+							all = append(all, fmt.Sprintf("g%d[%s] %s %s err=%v", o.G, o.Task, o.Kind, keyClass(o.Key), o.Err))
+						}
+					}
+					d["all_storage_ops"] = all
+					sig := "wrapping-token-remains"
+					if mode > 5 {
+						rv, rd := false, false
+						for _, tk := range tasks {
+							if tk.kind == "revoke" && tk.res.ok() {
+								rv = true
+							}
+							if tk.kind == "unwrap-self" || tk.kind == "unwrap-3p" || tk.kind == "rewrap" || tk.kind == "cubby-read" || tk.kind == "misuse" {
+								rd = true
+							}
+						}
+						if rv && rd {
+							// two revocations of the same token in flight at once: an explicit one and the one a use of the token triggers
+							sig = "wrapping-token-remains:explicit-revoke-races-use"
+						}
+					}
+					rec.Violation(rt, sig, d, "after the payload was redeemed/revoked the wrapping token still exists (lookup ok=%v, accessor ok=%v, stored payload key %q)", lr.ok() && lr.resp != nil, ar.ok() && ar.resp != nil, remaining)
 					break
 				}
 				time.Sleep(3 * time.Millisecond)
